@@ -91,6 +91,14 @@ func (ex *Exec) unop(fr *Frame, x *ssa.UnOp, st *State, reach Term) Val {
 		return Scalar{wrapTo(Neg(t), x.Type()), x.Type()}
 	case token.NOT:
 		return Scalar{Not(ex.scalar(v)), x.Type()}
+	case token.ARROW:
+		// channel receive: an arbitrary value
+		ex.vc.Assumptions["channels are opaque: a send has no modelled effect, a receive yields an arbitrary value (no deadlock reasoning)"] = true
+		if x.CommaOk {
+			tup := x.Type().(*types.Tuple)
+			return TupleV{E: []Val{ex.freshVal("recv", tup.At(0).Type(), st), Scalar{ex.vc.fresh("recvok", SBool), types.Typ[types.Bool]}}}
+		}
+		return ex.freshVal("recv", x.Type(), st)
 	case token.XOR:
 		t := ex.scalar(v)
 		_, hi, bounded, uns := intRange(x.Type())
